@@ -167,7 +167,7 @@ def run_trace(core, util, p, stream, mode="gen", ftype="tuple", vkind="callable"
             if ftype in ("tuple", "obj") and handed.get(i) is not f:
                 i = -1
             fr.append(i)
-        ev.append({"e": "T", "s": s, "t": t, "fr": fr})
+        ev.append({"e": "T", "s": s, "t": t, "fr": fr, "fv": [bool(_frame_idx_valid(ftype, f)[1]) for f in data]})
 
     tk = tokenizer
     try:
@@ -456,11 +456,38 @@ def history_group(core, util, rng, p, maxn, prop):
     for k in range(rng.randint(2, 3)):
         n = rng.randint(0, min(maxn, 30))
         s = rand_stream(rng, p, n, prop)
-        if rng.random() < .5:
+        shape = rng.random()
+        if shape < .3:
             s = [False] * rng.randint(0, 2) + [True] * (p["max"] * rng.randint(1, 2))       # ends exactly on a cut
-        elif rng.random() < .5:
+        elif shape < .45:
+            # ends on a cut followed by a tolerated silence (a leftover of silent frames only), or in the middle of an event
+            s = [False] * rng.randint(0, 3) + [True] * (p["max"] * rng.randint(1, 2)) + [False] * rng.randint(0, max(0, p["sil"]))
+            if rng.random() < .4:
+                s = s + [True] * rng.randint(1, max(1, p["max"] - 1))
+        elif shape < .6:
             s = [True] * rng.randint(1, max(1, p["min"])) + [False] * (p["sil"] + 2) + s    # starts with a short burst
+        elif shape < .8:
+            s = [False] * rng.randint(1, max(1, p["sil"])) + [True] * rng.randint(1, p["max"]) + [False] * (p["sil"] + 1) + s   # starts with a few silent frames, then activity
         streams.append(s)
+    if rng.random() < .5 and len(streams) >= 2:
+        # pairs made to reveal state carried from one run into the next: what the earlier stream leaves behind (an unfinished event, a cut
+        # at max_length, a cut followed by tolerated silence) meets the opening of the later one that would be treated differently
+        lead = [False] * rng.randint(0, 2)
+        kind_ = rng.choice(["mid-event", "cut", "cut+silence"])
+        if kind_ == "mid-event":
+            first_ = lead + [True] * (p["max"] * rng.randint(0, 1) + rng.randint(1, max(1, p["max"] - 1)))
+        elif kind_ == "cut":
+            first_ = lead + [True] * (p["max"] * rng.randint(1, 2))
+        else:
+            first_ = lead + [True] * (p["max"] * rng.randint(1, 2)) + [False] * rng.randint(1, max(1, p["sil"]))
+        opening = rng.choice(["silence-then-activity", "short-burst", "activity"])
+        if opening == "silence-then-activity":
+            second_ = [False] * rng.randint(1, max(1, p["sil"])) + [True] * rng.randint(1, p["max"] + 1) + [False] * (p["sil"] + 1)
+        elif opening == "short-burst":
+            second_ = [True] * rng.randint(1, max(1, p["min"] - 1)) + [False] * (p["sil"] + 2)
+        else:
+            second_ = [True] * rng.randint(1, p["max"] + 1) + [False] * (p["sil"] + 1)
+        streams[0], streams[1] = first_, second_ + rand_stream(rng, p, rng.randint(0, 8), prop)
     style = rng.choice(["sequential", "upfront", "fault"])
     if style == "fault":
         # the first stream breaks (exception out of read()) while a candidate token is buffered; the caller catches it and goes on
@@ -479,7 +506,7 @@ def history_group(core, util, rng, p, maxn, prop):
         try:
             g = gens[k] if gens else tk.tokenize(Src(s, ev), generator=True)
             for data, a, b in g:
-                ev.append({"e": "T", "s": a, "t": b, "fr": [d[0] for d in data]})
+                ev.append({"e": "T", "s": a, "t": b, "fr": [d[0] for d in data], "fv": [bool(d[1]) for d in data]})
             ev.append({"e": "END"})
         except Exception as exc:  # noqa
             ev.append({"e": "EXC", "cls": type(exc).__name__})
